@@ -95,7 +95,22 @@ class Batch:
         self.dir = os.path.join(root, "b%d" % bi)
         os.makedirs(self.dir, exist_ok=True)
         self.case = {"schema": self.text, "batch": bi}
-        res = CC.parse(self.text)
+        self.split = decls is not None and False
+        if bi % 4 == 2 and can_bindings:
+            # every fourth batch is read from THREE files: the root imports a module with the types and a
+            # module with the bindings and services (a binding named after its struct meets the struct's own
+            # default binding only when the modules are merged)
+            src = os.path.join(self.dir, "src")
+            os.makedirs(src, exist_ok=True)
+            types = [d for d in decls if d["kind"] in ("struct", "enum")]
+            rest = [d for d in decls if d["kind"] not in ("struct", "enum")]
+            open(os.path.join(src, "types.fcp"), "w").write(S.print_schema(types))
+            open(os.path.join(src, "bindings.fcp"), "w").write(S.print_schema(rest))
+            open(os.path.join(src, "main.fcp"), "w").write('version: "3"\nmod types;\nmod bindings;\n')
+            self.split = True
+            self.case["read_from"] = "main.fcp importing types.fcp (structs, enums) and bindings.fcp (bindings, services)"
+            run.count("batches_read_from_module_files")
+        res = self.parse()
         if res.is_err():
             run.violation("front end rejected a well-formed schema: %r" % (res.err(),), self.case)
             return
@@ -114,7 +129,7 @@ class Batch:
                 return
         _first_batch_of_process = False
         try:
-            tree = CC.parse(self.text).unwrap()
+            tree = self.parse().unwrap()
             self.files = cpp.generate(tree, self.dir)
             if bi % 2:
                 # every other batch is built from the SECOND generation out of one tree object (a generator
@@ -140,6 +155,14 @@ class Batch:
             run.violation("generated C++ does not compile as C++17: %s" % (first[0][:300] if first else log[:300]), self.case)
             return
         self.ok = True
+
+    def parse(self):
+        if self.split:
+            from fcp.parser import get_fcp
+            from fcp.error import Logger
+
+            return get_fcp(os.path.join(self.dir, "src", "main.fcp"), Logger({}))
+        return CC.parse(self.text)
 
     def values(self, run, name, n_random, finite=True):
         r = run.rng_ns("cppvalues", self.bi, name)
